@@ -172,6 +172,9 @@ def gen_bias(rng, name, req, m_now):
         else:
             p['function'] = 'expFromZero'
             p['params'] = {'alpha': rng.choice([PU // 100, PU // 10]), 'multiplier': rng.choice([PU // 2, PU]), 'queryNumber': rng.randint(0, 20)}
+            for k_ in list(p['params']):       # parameters may be left out (they default to 0)
+                if rng.random() < 0.2:
+                    del p['params'][k_]
         p['randomSeed'] = rng.randint(0, 999)
         bounding(rng, p)
     elif name == 'criteriaConcealment':
